@@ -12,16 +12,17 @@ import (
 
 // FuncVal is a function value known to the engine.
 type FuncVal struct {
-	Kind   string // "param" (callback parameter), "lit" (function literal), "named" (declared function), "spec"
-	Name   string // param name / contract key
-	Lit    *ast.FuncLit
-	Env    *St // captured variables (by reference to the defining state's vars at capture time)
-	Sig    *types.Signature
-	Ref    *FuncRef
-	Info   *types.Info           // type info of the package the literal / function lives in
-	TTypes map[string]types.Type // Go types of the enclosing generic instantiation (for type assertions to T)
-	TArgs  map[string]*Sort
-	Inner  *FuncVal // Kind "wrap": a closure / named function passed as a callback, with a call-site trace
+	Kind        string // "param" (callback parameter), "lit" (function literal), "named" (declared function), "spec"
+	Name        string // param name / contract key
+	Lit         *ast.FuncLit
+	Env         *St // captured variables (by reference to the defining state's vars at capture time)
+	Sig         *types.Signature
+	Ref         *FuncRef
+	Info        *types.Info           // type info of the package the literal / function lives in
+	LikeChecked bool                  // wrap handed to a parameter with a like-contract
+	TTypes      map[string]types.Type // Go types of the enclosing generic instantiation (for type assertions to T)
+	TArgs       map[string]*Sort
+	Inner       *FuncVal // Kind "wrap": a closure / named function passed as a callback, with a call-site trace
 	// partial application produced by β-reduction is not needed: generated code uses literals.
 }
 
